@@ -144,6 +144,12 @@ def gen_mutation(rng):
         # characters that URL splitting silently drops or keeps: TAB, CR, LF, CR LF, space, other controls
         pos = rng.randint(len("gemini://") + 1, len(text))
         text = text[:pos] + rng.choice(["\t", "\r", "\n", "\r\n", "\r\n../private/x", " ", "\x0b", "\x00", "\x7f"]) + text[pos:]
+    elif r < 0.54:
+        # literal text that Unicode normalisation, case folding or width folding would rewrite: whatever the library does
+        # with such a URL, what it sends denotes the components the caller gets
+        pos = text.find("/", len("gemini://")) + 1 or len(text)
+        pos = rng.randint(pos, len(text)) if pos <= len(text) else len(text)
+        text = text[:pos] + rng.choice(["cafe\u0301", "\u212b", "\u2126m", "\ufb01le", "\uff21\uff22", "A\u030a", "\u1e9b\u0323", "\u037e", "\u00c5", "\u0130", "x\u200dy", "\u1100\u1161"]) + text[pos:]
     return text, parts
 
 
